@@ -490,7 +490,8 @@ func (g *c01Gen) str(d int) *shape {
 		return sh("grp", "", g.str(d-1))
 	case 12:
 		if g.hazards && r.chance(1, 4) {
-			// a decimal literal directly followed by a member access (known finding)
+			// a decimal literal followed by a member access: the printer has to keep the blank
+			// (formerly the recorded finding KF9 for C01, repaired)
 			return sh("id", fmt.Sprintf("%d .toString()", r.intn(100)))
 		}
 		if r.chance(1, 4) {
@@ -1226,8 +1227,8 @@ func stmtFirstChar(s ast.Statement) byte {
 }
 
 type c01Traits struct {
-	asiHazard, nosemiElse, numberDot, backtickBlank bool
-	newlineBacktick                                 bool // a backtick string at the start of a line right after a complete expression
+	asiHazard, nosemiElse, backtickBlank bool
+	newlineBacktick                      bool // a backtick string at the start of a line right after a complete expression
 }
 
 // newlineBeforeBacktick: JavaScript continues `a<LF>`x“ as a tagged template (outside
@@ -1261,18 +1262,6 @@ func c01TraitsOf(prog *ast.Program) c01Traits {
 					t.nosemiElse = true
 				}
 			}
-		case *ast.MemberExpression:
-			if il, ok := x.Object.(*ast.IntegerLiteral); ok && !x.Computed {
-				dec := il.Token.Literal != ""
-				for i := 0; i < len(il.Token.Literal); i++ {
-					if il.Token.Literal[i] < '0' || il.Token.Literal[i] > '9' {
-						dec = false
-					}
-				}
-				if dec {
-					t.numberDot = true
-				}
-			}
 		case *ast.MultiStringLiteral:
 			if strings.Contains(x.Value, " \n") {
 				t.backtickBlank = true
@@ -1300,8 +1289,6 @@ func c01Class(t c01Traits, cfg ccfg) string {
 	switch {
 	case t.newlineBacktick:
 		return "newline-before-backtick"
-	case t.numberDot:
-		return "number-dot-member"
 	case cfg.pretty && !cfg.semi && t.asiHazard:
 		return "nosemi-asi-hazard"
 	case cfg.pretty && !cfg.semi && t.nosemiElse:
